@@ -83,10 +83,15 @@ def _binding_order(ctx: Ctx, r: RuleResult, pc, sc: FunctionInfo, self_t: Term):
     def pol(fi: FunctionInfo, depth: int) -> bool:
         if default_inline(fi, depth):
             return True
-        if depth > 6 or fi.module.name != 'hpl.ast.properties' or fi.name in ('but', 'cast'):
+        if depth > 6 or not fi.module.name.startswith('hpl.ast.') or fi.name in ('but', 'cast'):
             return False
         is_ast = fi.cls is not None and root in fi.cls.mro()
-        if is_ast and not fi.name.startswith('_'):
+        # a public method of an AST class is looked through only when it is a pure check (declared to return nothing and
+        # able to raise): the alias checks may live on the event classes
+        checker = fi.node.returns is not None and ast.unparse(fi.node.returns) == 'None' and any(isinstance(x, ast.Raise) for x in ast.walk(fi.node))
+        if is_ast and not fi.name.startswith('_') and not checker:
+            return False
+        if fi.module.name != 'hpl.ast.properties' and not checker:
             return False
         if any(isinstance(x, (ast.While, ast.With, ast.Yield, ast.YieldFrom, ast.Try)) for x in ast.walk(fi.node)):
             return False
